@@ -97,7 +97,16 @@ def run(case):
     from ..oracles import V
     txt = f"sampler {case['frag_string']} seed={case['seed']} target_units={case['target_units']}"
     try:
-        mol = SC.construct_and_sample(case)
+        sampler_ = SC.make_sampler(case)
+        target_ = SC.target_of(case, sampler_)
+        mol = sampler_.sample(target_, start_fragment=case['start_fragment'])
+        if case['seed'] % 2 == 0:
+            # a further molecule from the SAME sampler object (same start fragment): judged like the first
+            try:
+                mol = sampler_.sample(target_, start_fragment=case['start_fragment'])
+                txt += ' [second molecule drawn from one sampler object]'
+            except Exception:
+                pass
     except Exception:
         return {'violations': [], 'rejected': {'sampler_dead_end_judged_by_C16': 1}, 'nontrivial': False, 'cls': 'sampler_dead_end', 'sample': txt}
     viol, checked = [], 0
